@@ -146,7 +146,7 @@ Holds(p, h) ==
     LET s == snt1(h)  d == dl1(h)  hp == h.out.hops IN
     CASE h.par.entry = "crash" -> FALSE
       [] h.par.entry = "lab" -> (IF p = "C08" THEN C08_lab(h) ELSE C13_lab(h))
-      [] h.par.entry = "doc" -> (CASE p = "C16" -> C16_json(h.out) /\ Conforms(h.par.docin, h.out.doc)
+      [] h.par.entry = "doc" -> (CASE p = "C16" -> C16_json(h.out) /\ (h.par.docin.rtt_div = 1 => Conforms(h.par.docin, h.out.doc))
                                    [] p = "C17" -> h.out.panic = "" /\ C17_json(h.par.docin, h.out)
                                    [] p = "C18" -> C18_json(h.par.docin, h.out) /\ C18_reprobe(h.par.docin, h.got)
                                    [] p = "C08" -> C08_doc(h.par.docin, h.out) [] OTHER -> TRUE)
